@@ -557,6 +557,19 @@ Walk:
 				if !lazy {
 					copyWithResize(c.tsrParams, c.params)
 				}
+			} else if !strings.HasSuffix(path, "/") && charsMatched == len(path) && charsMatchedInNodeFound == len(current.key) {
+				// Tsr recommendation: add an extra trailing slash (got an exact match)
+				// If we match completely /foo, we end up in an intermediary node which may have a "/" leaf child.
+				// /foo
+				//	  / [leaf=/foo/]
+				//	  {bar} [leaf=/foo{bar}]
+				if idx := linearSearch(current.childKeys, slashDelim); idx >= 0 && current.children[idx].isLeaf() && current.children[idx].key == "/" {
+					tsr = true
+					n = current.children[idx]
+					if !lazy {
+						copyWithResize(c.tsrParams, c.params)
+					}
+				}
 			}
 		}
 
